@@ -104,6 +104,10 @@ func checkC15(w *World, c *Check, tier string) {
 			if f == splitFn {
 				callsSplit = true
 			}
+			// the package-level Split inlined: ActivityPubCollections.Split(i)
+			if g := w.Global("ActivityPubCollections"); g != nil && callsMethodOnGlobal(f, g, "Split") {
+				callsSplit = true
+			}
 		}
 		for _, gn := range []string{"validActivityCollection", "validObjectCollection"} {
 			if g := w.Global(gn); g != nil && gs[g] {
@@ -343,6 +347,112 @@ func checkC15(w *World, c *Check, tier string) {
 		}
 		if nret > 0 {
 			c.ok("C15.route", "Split:owner-as-cut", w.FuncPos(sp), fmt.Sprintf("%d returns traced", nret))
+		}
+	}
+
+	// ---- a name cut from the raw text is handed back only where the IRI could not be parsed: for an IRI that parses, the
+	// name is the last segment of URL.Path — "what follows the last slash" of the text is the host for http://inbox,
+	// and part of the query or fragment elsewhere ----
+	if sp := w.Method("CollectionPaths", "Split"); sp != nil && len(sp.Params) == 2 {
+		var failSide []*ssa.BasicBlock
+		for _, call := range callsIn(sp) {
+			cal := call.Common().StaticCallee()
+			if cal == nil || cal.Name() != "URL" || cal.Signature.Recv() == nil || len(call.Common().Args) == 0 || unwrap(call.Common().Args[0]) != ssa.Value(sp.Params[1]) {
+				continue
+			}
+			v := call
+			if v.Referrers() == nil {
+				continue
+			}
+			for _, r := range *v.Referrers() {
+				ex, isEx := r.(*ssa.Extract)
+				if !isEx || ex.Index != 1 || ex.Referrers() == nil {
+					continue
+				}
+				for _, r2 := range *ex.Referrers() {
+					bo, isB := r2.(*ssa.BinOp)
+					if !isB || !(isNilConst(bo.X) || isNilConst(bo.Y)) || bo.Referrers() == nil {
+						continue
+					}
+					for _, r3 := range *bo.Referrers() {
+						if iff, isIf := r3.(*ssa.If); isIf {
+							if bo.Op == token.EQL {
+								failSide = append(failSide, iff.Block().Succs[1])
+							} else if bo.Op == token.NEQ {
+								failSide = append(failSide, iff.Block().Succs[0])
+							}
+						}
+					}
+				}
+			}
+		}
+		var rawName func(v ssa.Value, d int, seen map[ssa.Value]bool) bool
+		rawName = func(v ssa.Value, d int, seen map[ssa.Value]bool) bool {
+			if v == nil || d > 10 || seen[v] {
+				return false
+			}
+			seen[v] = true
+			switch x := v.(type) {
+			case *ssa.Parameter:
+				return x == sp.Params[1]
+			case *ssa.ChangeType:
+				return rawName(x.X, d+1, seen)
+			case *ssa.Convert:
+				return rawName(x.X, d+1, seen)
+			case *ssa.Slice:
+				return rawName(x.X, d+1, seen)
+			case *ssa.Extract:
+				return rawName(x.Tuple, d+1, seen)
+			case *ssa.Phi:
+				for _, e := range x.Edges {
+					if rawName(e, d+1, seen) {
+						return true
+					}
+				}
+			case *ssa.UnOp:
+				if al, ok := x.X.(*ssa.Alloc); ok && x.Op == token.MUL {
+					for _, st := range storesTo(al) {
+						if rawName(st.Val, d+1, seen) {
+							return true
+						}
+					}
+				}
+			case *ssa.BinOp:
+				return x.Op == token.ADD && (rawName(x.X, d+1, seen) || rawName(x.Y, d+1, seen))
+			case *ssa.Call:
+				for _, a := range x.Common().Args {
+					if isStringish(a.Type()) && rawName(a, d+1, seen) {
+						return true
+					}
+				}
+			}
+			return false
+		}
+		nraw := 0
+		for _, rb := range returnBlocks(sp) {
+			ret := rb.Instrs[len(rb.Instrs)-1].(*ssa.Return)
+			if len(ret.Results) != 2 {
+				continue
+			}
+			if _, isConst := unwrap(ret.Results[1]).(*ssa.Const); isConst {
+				continue
+			}
+			if !rawName(ret.Results[1], 0, map[ssa.Value]bool{}) {
+				continue
+			}
+			nraw++
+			ok := false
+			for _, fs := range failSide {
+				if fs.Dominates(rb) {
+					ok = true
+				}
+			}
+			key := fmt.Sprintf("Split:raw-name#%d", nraw)
+			if ok {
+				c.ok("C15.route", key, w.InstrPos(ret), "a name cut from the raw text is returned only after IRI.URL() failed")
+			} else {
+				c.bad("C15.route", "Split:raw-name:parsable", w.InstrPos(ret), "Split can hand back a collection name cut from the text of the IRI for an IRI that parses as a URL: the name must be the last segment of URL.Path — for http://inbox the text after the last slash is the host, so the host is taken for a collection and ValidCollectionIRI accepts an IRI without a path")
+			}
 		}
 	}
 
